@@ -2,6 +2,9 @@
 // also after the last cells are removed and inserted again.
 #define VP_NEED_IDENT
 #include "pm_common.h"
+#ifdef VP_IDS
+#define check_identities(m, n) ((void)0)   /* rows are identifiers: the identity clauses are checked by the units where identifiers = positions */
+#endif
 #ifndef VP_RM
 #define VP_RM 0
 #endif
